@@ -132,15 +132,24 @@ def var_decl(vtype, default):
     return f"{word}({float(default)})"
 
 
-def build_templates(model, style=0, share_nodes=True, prefix=""):
-    """MDL -> CircuitTemplate built through the Python classes of the repository."""
+def var_decl_dict(vtype, default):
+    """explicit dictionary form of a variable definition (the form PyRates uses for generated operators)"""
+    vt = {"const": "constant", "output": "output", "input": "input", "state": "variable"}[vtype]
+    return {"vtype": vt, "value": float(default), "dtype": "float", "shape": (1,)}
+
+
+def build_templates(model, style=0, share_nodes=True, prefix="", dict_vars=False, node_cache=None, ops_cache=None):
+    """MDL -> CircuitTemplate built through the Python classes of the repository.
+    node_cache / ops_cache: dictionaries that persist between calls, so that several circuits share template OBJECTS."""
     from pyrates import OperatorTemplate, NodeTemplate, CircuitTemplate
-    ops = {}
+    ops = ops_cache if ops_cache is not None else {}
     for name, op in model["ops"].items():
+        if name in ops:
+            continue
         eqs = [eq_str(l, k, t, style) for l, k, t in op["eqs"]]
-        variables = {v: var_decl(vt, d) for v, (vt, d) in op["vars"].items()}
+        variables = {v: (var_decl_dict(vt, d) if dict_vars else var_decl(vt, d)) for v, (vt, d) in op["vars"].items()}
         ops[name] = OperatorTemplate(name=name, equations=eqs, variables=variables, path=None)
-    node_tpls = {}
+    node_tpls = node_cache if node_cache is not None else {}
     nodes = {}
     for label, node in model["nodes"].items():
         key = (tuple(node["ops"]), tuple(sorted(node.get("over", {}).items())))
@@ -171,8 +180,11 @@ def build_templates(model, style=0, share_nodes=True, prefix=""):
             attrs["delay"] = e["d"]
         if e.get("s") is not None:
             attrs["spread"] = e["s"]
+        for ev, evv in (e.get("eover") or {}).items():
+            attrs[f"{e['tpl']}/{ev}"] = evv            # per-edge override of an edge-operator parameter
         edges.append((e["src"], e["tgt"], edge_tpls.get(e.get("tpl")), attrs))
-    circuits = {lab: build_templates(sub, style, share_nodes, prefix=f"{prefix}{lab}_")
+    circuits = {lab: build_templates(sub, style, share_nodes, prefix=f"{prefix}{lab}_", dict_vars=dict_vars, node_cache=node_cache,
+                                     ops_cache=ops_cache if ops_cache is not None else ops)
                 for lab, sub in model.get("circuits", {}).items()}
     kw = dict(name=f"{prefix}net", edges=edges)
     if nodes:
@@ -308,7 +320,7 @@ def spec_rhs(model, y, params=None, hist=None, t=0.0, edge_now=None, ext=None):
                             # edge template: the (algebraic) edge operator is evaluated per edge on its own source
                             eop = d["_op"]
                             sv = edge_now(src, d, val_of) if edge_now is not None else val_of(src)
-                            eenv = {v_: (sv if vt_ == "input" else dflt) for v_, (vt_, dflt) in eop["vars"].items()}
+                            eenv = {v_: (sv if vt_ == "input" else (d.get("eover") or {}).get(v_, dflt)) for v_, (vt_, dflt) in eop["vars"].items()}
                             outv = None
                             for l_, k_, tr_ in eop["eqs"]:
                                 eenv[l_] = ev(tr_, eenv)
@@ -396,10 +408,28 @@ def spec_fixed_step(model, T, dt, dts, solver="euler", y0=None, params=None, inp
             return val_of(src)
         return edge_now
 
+    has_past = '"past"' in __import__("json").dumps(model)
+    ystates = []                               # y_j for j = 0..i (records of the history, times j*dt)
+
+    def hist(tq, path):
+        # piecewise-linear interpolant of the recorded iterates, constant before the start and after the last record
+        if tq <= 0 or len(ystates) == 1:
+            return ystates[0][path]
+        last = (len(ystates) - 1) * dt
+        if tq >= last:
+            return ystates[-1][path]
+        j = int(tq / dt + 1e-9)
+        j = min(j, len(ystates) - 2)
+        a = (tq - j * dt) / dt
+        return ystates[j][path] + a * (ystates[j + 1][path] - ystates[j][path])
+
     def rhs(yv, i, chain_state):
         p2 = dict(params or {})
         ext = {pth: float(arr[min(i, len(arr) - 1)]) for pth, arr in inputs.items()} if inputs else None
-        dy, vals = spec_rhs(model, yv, p2, t=i, edge_now=make_edge_now(i, chain_state), ext=ext)
+        if has_past:
+            dy, vals = spec_rhs(model, yv, p2, t=i * dt, hist=hist, ext=ext)
+        else:
+            dy, vals = spec_rhs(model, yv, p2, t=i, edge_now=make_edge_now(i, chain_state), ext=ext)
         dch = {}
         for j, st in chain_state.items():
             e = edges[j]
@@ -415,6 +445,8 @@ def spec_fixed_step(model, T, dt, dts, solver="euler", y0=None, params=None, inp
         if i % m == 0 and len(rec[keys[0]]) < rows:
             for k in keys:
                 rec[k].append(y[k])
+        if has_past and len(ystates) == i:
+            ystates.append(dict(y))
         dy, vals, dch = rhs(y, i, chains)
         snapshot = dict(vals)
         snapshot.update(y)
